@@ -18,7 +18,8 @@ Inductive meth :=
 | MPop | MPopAll | MPopItem | MPopLast
 | MUpdate | MUpdateExtend | MIOr
 | MIterItems | MIterKeys | MIterValues | MReversed | MKeys | MValues | MItems | MIter
-| MGetState | MSetState | MCopy | MInverted | MCounts | MSorted | MToDict.
+| MGetState | MSetState | MCopy | MInverted | MCounts | MSorted | MToDict
+| MEq | MNe | MSortedValues.
 
 Inductive pv :=
 | VTok (n : nat) | VMissing | VBool (b : bool) | VCell (a : nat)
@@ -28,7 +29,9 @@ Inductive pv :=
    an iterator of pairs; a local set; the object itself as a return value *)
 | VArg (a : arg) | VOtherObj (q : pomd) | VKw (m : pairs) | VPairs (l : pairs) | VSet (l : list nat) | VSelfObj
 | VNat (n : nat) | VDict (d : list (nat * nat))       (* an int; a local dict of ints (lengths in __reversed__) *)
-| VKeyFn (f : keyfn) | VMulti (l : list (K * list V)).   (* a sort key function; a plain dict of lists *)
+| VKeyFn (f : keyfn) | VMulti (l : list (K * list V))    (* a sort key function; a plain dict of lists *)
+| VJunk (len : option nat)
+| VDictL (d : pydict (list V)).     (* a local dict of lists (sorted_val_map in sortedvalues) *)      (* an object that is neither a mapping nor an OMD; len() works or raises TypeError *)
 
 Inductive ex :=
 | EVar (x : nat) | ENone | EMissing | ERoot
@@ -71,7 +74,14 @@ Inductive ex :=
                                                   itself is the model's pm_from_pairs; an unhashable key raises) *)
 | EComp1 (multi : bool) (x : nat) (src a b : ex)   (* ((a, b) for x in src) / {a: b for x in src} *)
 | EComp2 (x y : nat) (src a b : ex)            (* ((a, b) for x, y in src) *)
-| ESorted (e k r : ex).                        (* sorted(e, key=k, reverse=r) *)
+| ESorted (e k r : ex)                         (* sorted(e, key=k, reverse=r) *)
+| ELenObj (e : ex) | ELenSelf                  (* len(other) / len(self) *)
+| ENe (a b : ex)                               (* a != b on ints, or on keys / values / the _MISSING sentinel *)
+| EOr (a b : ex) | EAnd (a b : ex)             (* short-circuit *)
+| EExhausted
+| ESortedValMap (k r : ex)                     (* {k: sorted(v, key=k, reverse=r)[::-1] for k, v in super().items()} *)
+| ENewEmpty.                                   (* self.__class__() *)                                  (* next(it, _MISSING) is _MISSING for an iterator that the preceding
+                                                  zip_longest loop has run to its end (checked by the translator) *)
 
 Inductive stmt :=
 | SPass | SSeq (a b : stmt) | SAssign (x : nat) (e : ex) | SExpr (e : ex)
@@ -87,7 +97,12 @@ Inductive stmt :=
 | SFor2 (x y : nat) (e : ex) (b : stmt)                         (* for x, y in e: b *)
 | SYield (e : ex)                                               (* yield e (generators are run to completion) *)
 | SDictSetdefault (d tmp : nat) (k : ex) (v : nat)              (* tmp = d.setdefault(k, v) for a local dict d *)
-| SDictIncr (d : nat) (k : ex).                                 (* d[k] += 1 *)
+| SDictIncr (d : nat) (k : ex)                                  (* d[k] += 1 *)
+| SObjAddPop (r m : nat) (k : ex)                               (* r.add(k, m[k].pop()) for a local object r and a
+                                                                   local dict of lists m *)
+| STryTypeError (b h : stmt)                                    (* try: b  except TypeError: h *)
+| SForZip (k1 v1 k2 v2 : nat) (a b : ex) (body : stmt).         (* for (k1, v1), (k2, v2) in zip_longest(a, b,
+                                                                   fillvalue=(_MISSING, _MISSING)): body *)
 
 Definition type_error : exn := OtherExn 7.
 
@@ -293,20 +308,20 @@ Section Interp.
     | EIsSelf a =>
         match eval en a s with
         | (Ok (VArg ASelf), s1) => (Ok (VBool true), s1)
-        | (Ok (VArg _), s1) | (Ok (VOtherObj _), s1) => (Ok (VBool false), s1)
+        | (Ok (VArg _), s1) | (Ok (VOtherObj _), s1) | (Ok (VJunk _), s1) => (Ok (VBool false), s1)
         | (Ok _, s1) => raise type_error s1
         | r => r
         end
     | EIsOMD a =>
         match eval en a s with
         | (Ok (VArg ASelf), s1) | (Ok (VArg AOther), s1) | (Ok (VOtherObj _), s1) => (Ok (VBool true), s1)
-        | (Ok (VArg _), s1) => (Ok (VBool false), s1)
+        | (Ok (VArg _), s1) | (Ok (VJunk _), s1) => (Ok (VBool false), s1)
         | (Ok _, s1) => raise type_error s1
         | r => r
         end
     | EHasKeys a =>
         match eval en a s with
-        | (Ok (VArg (APairs _)), s1) => (Ok (VBool false), s1)
+        | (Ok (VArg (APairs _)), s1) | (Ok (VJunk _), s1) => (Ok (VBool false), s1)
         | (Ok (VArg _), s1) | (Ok (VOtherObj _), s1) => (Ok (VBool true), s1)
         | (Ok _, s1) => raise type_error s1
         | r => r
@@ -455,6 +470,72 @@ Section Interp.
         | (Ok _, s1) => raise type_error s1
         | r0 => r0
         end
+    | ELenObj a =>
+        match eval en a s with
+        | (Ok (VOtherObj q), s1) => (Ok (VNat (length (pstore q))), s1)
+        | (Ok (VArg ASelf), s1) => (Ok (VNat (length (pstore s1))), s1)
+        | (Ok (VArg (AMap m)), s1) => (Ok (VNat (length m)), s1)
+        | (Ok (VJunk (Some n)), s1) => (Ok (VNat n), s1)
+        | (Ok (VJunk None), s1) => raise TypeError s1
+        | (Ok _, s1) => raise type_error s1
+        | r => r
+        end
+    | ELenSelf => (Ok (VNat (length (pstore s))), s)
+    | ENe a b =>
+        match eval en a s with
+        | (Ok va, s1) =>
+            match eval en b s1 with
+            | (Ok vb, s2) =>
+                match va, vb with
+                | VNat x, VNat y | VTok x, VTok y => (Ok (VBool (negb (Nat.eqb x y))), s2)
+                | VMissing, VMissing => (Ok (VBool false), s2)
+                | VMissing, VTok _ | VTok _, VMissing => (Ok (VBool true), s2)
+                | _, _ => raise type_error s2
+                end
+            | r => r
+            end
+        | r => r
+        end
+    | EOr a b =>
+        match eval en a s with
+        | (Ok v, s1) =>
+            match truth s1 v with
+            | Ok true => (Ok (VBool true), s1)
+            | Ok false => match eval en b s1 with
+                          | (Ok w, s2) => (match truth s2 w with Ok x => Ok (VBool x) | Raise x0 => Raise x0 end, s2)
+                          | r => r
+                          end
+            | Raise x0 => (Raise x0, s1)
+            end
+        | r => r
+        end
+    | EAnd a b =>
+        match eval en a s with
+        | (Ok v, s1) =>
+            match truth s1 v with
+            | Ok false => (Ok (VBool false), s1)
+            | Ok true => match eval en b s1 with
+                         | (Ok w, s2) => (match truth s2 w with Ok x => Ok (VBool x) | Raise x0 => Raise x0 end, s2)
+                         | r => r
+                         end
+            | Raise x0 => (Raise x0, s1)
+            end
+        | r => r
+        end
+    | EExhausted => (Ok (VBool true), s)
+    | ESortedValMap k r =>
+        match eval en k s with
+        | (Ok (VKeyFn f), s1) =>
+            match eval en r s1 with
+            | (Ok (VBool rv), s2) =>
+                (Ok (VDictL (map (fun kv => (fst kv, rev (py_sorted (kf_val f) rv (snd kv)))) (pstore s2))), s2)
+            | (Ok _, s2) => raise type_error s2
+            | r0 => r0
+            end
+        | (Ok _, s1) => raise type_error s1
+        | r0 => r0
+        end
+    | ENewEmpty => (Ok (VOtherObj pm_empty), s)
     | ETrue => (Ok (VBool true), s)
     | EFalse => (Ok (VBool false), s)
     | ENotIs a b =>
@@ -559,6 +640,33 @@ Section Interp.
     | (a, b) :: r =>
         match body (env_set (env_set en x (VTok a)) y (VTok b)) s with
         | (ONormal, en2, s2) => for_each2 x y r body en2 s2
+        | o => o
+        end
+    end.
+
+  (* zip_longest with the fill value (_MISSING, _MISSING) *)
+  Fixpoint for_zip (k1 v1 k2 v2 : nat) (la lb : pairs) (body : env -> pomd -> outcome * env * pomd)
+                   (en : env) (s : pomd) {struct la} : outcome * env * pomd :=
+    let bind4 (a b c d : pv) := env_set (env_set (env_set (env_set en k1 a) v1 b) k2 c) v2 d in
+    let fix rest_b (lb : pairs) (en : env) (s : pomd) {struct lb} : outcome * env * pomd :=
+        match lb with
+        | [] => (ONormal, en, s)
+        | (c, d) :: rb =>
+            match body (env_set (env_set (env_set (env_set en k1 VMissing) v1 VMissing) k2 (VTok c)) v2 (VTok d)) s with
+            | (ONormal, en2, s2) => rest_b rb en2 s2
+            | o => o
+            end
+        end in
+    match la, lb with
+    | [], _ => rest_b lb en s
+    | (a, b) :: ra, [] =>
+        match body (bind4 (VTok a) (VTok b) VMissing VMissing) s with
+        | (ONormal, en2, s2) => for_zip k1 v1 k2 v2 ra [] body en2 s2
+        | o => o
+        end
+    | (a, b) :: ra, (c, d) :: rb =>
+        match body (bind4 (VTok a) (VTok b) (VTok c) (VTok d)) s with
+        | (ONormal, en2, s2) => for_zip k1 v1 k2 v2 ra rb body en2 s2
         | o => o
         end
     end.
@@ -784,6 +892,46 @@ Section Interp.
                 end
             | Ok _ => (ORaise type_error, en, s1)
             | Raise x0 => (ORaise x0, en, s1)
+            end
+        | (Ok _, s1) => (ORaise type_error, en, s1)
+        | (Raise x0, s1) => (ORaise x0, en, s1)
+        end
+    | SObjAddPop r m k =>
+        match eval en k s with
+        | (Ok (VTok kk), s1) =>
+            match env_get en m, env_get en r with
+            | Ok (VDictL d), Ok (VOtherObj q) =>
+                match d_get d kk with
+                | None => (ORaise KeyError, en, s1)
+                | Some vs =>
+                    match rev vs with
+                    | [] => (ORaise IndexError, en, s1)
+                    | v :: rrest =>
+                        let en1 := env_set en m (VDictL (d_set d kk (rev rrest))) in
+                        match callee MAdd [VTok kk; VTok v] q with
+                        | (Ok _, q') => (ONormal, env_set en1 r (VOtherObj q'), s1)
+                        | (Raise x0, q') => (ORaise x0, env_set en1 r (VOtherObj q'), s1)
+                        end
+                    end
+                end
+            | Raise x0, _ | _, Raise x0 => (ORaise x0, en, s1)
+            | _, _ => (ORaise type_error, en, s1)
+            end
+        | (Ok _, s1) => (ORaise type_error, en, s1)
+        | (Raise x0, s1) => (ORaise x0, en, s1)
+        end
+    | STryTypeError b h =>
+        match exec b en s with
+        | (ORaise TypeError, en1, s1) => exec h en1 s1
+        | r => r
+        end
+    | SForZip k1 v1 k2 v2 a b body =>
+        match eval en a s with
+        | (Ok (VPairs la), s1) =>
+            match eval en b s1 with
+            | (Ok (VPairs lb), s2) => for_zip k1 v1 k2 v2 la lb (exec body) en s2
+            | (Ok _, s2) => (ORaise type_error, en, s2)
+            | (Raise x0, s2) => (ORaise x0, en, s2)
             end
         | (Ok _, s1) => (ORaise type_error, en, s1)
         | (Raise x0, s1) => (ORaise x0, en, s1)
